@@ -2,11 +2,13 @@
 
 
 def dpl_wf(e):
-    """ring invariant: the set is exactly the content of the deque, no repetition, at most maxlen >= 1 entries"""
+    """ring invariant: the set is exactly the content of the deque (positions lo..hi-1 of a ghost array, with a ghost
+    inverse map value -> position), no repetition, at most maxlen >= 1 entries.  Universal quantifiers only, with
+    array reads as triggers."""
     d = e.dpl_deque
     s = e.dpl_set
-    return (forall(lambda i: implies(0 <= i < dq_len(d), set_has(s, dq_at(d, i)) and dq_idx(d, dq_at(d, i)) == i))
-            and forall(lambda x: implies(set_has(s, x), 0 <= dq_idx(d, x) < dq_len(d) and dq_at(d, dq_idx(d, x)) == x))
+    return (forall(lambda p: implies(dq_lo(d) <= p < dq_hi(d), set_has(s, dq_at_pos(d, p)) and dq_pos_of(d, dq_at_pos(d, p)) == p))
+            and forall(lambda x: implies(set_has(s, x), dq_lo(d) <= dq_pos_of(d, x) < dq_hi(d) and dq_at_pos(d, dq_pos_of(d, x)) == x))
             and 0 <= dq_len(d) <= dq_maxlen(d) and dq_maxlen(d) >= 1)
 
 
